@@ -23,7 +23,7 @@ Spec (stateless; <hex> = concrete code, `-` = empty)
   spec-at <hex> <pc>           -> ok <hh>
   spec-jump <hex> <dest>       -> accepted | rejected
   spec-sweep <t,t,…|->         -> ok <d,d,…|-> stop=<n> blocked=<0|1>          (t = hh | ?)
-  spec-run <hex> <callvalue> <fuel> -> halt=<stop|invalidjump|underflow|invalidopcode|unsupported|fuel> pc=<n> stack=<hex,…|-> (top first)
+  spec-run <hex> <callvalue> <fuel> [<calldata word hex>] -> halt=<stop|invalidjump|underflow|invalidopcode|unsupported|fuel> pc=<n> stack=<hex,…|-> (top first)
                                   msize=<n> cv=<0|1: CALLVALUE executed> trace=<pc,pc,…> (in execution order)
   spec-all <hex> <k>           -> J … D … A … S …   (same layout as `all`, operands as byte tokens are not available: values)
 -/
@@ -220,10 +220,14 @@ def handle (st : St) (line : String) : String × St :=
     | some pc =>
       (s!"ok {natList (Spec.Code.sweep pc)} stop={Spec.Code.sweepStop pc} blocked={if Spec.Code.sweepBlocked pc then 1 else 0}", st)
     | none => ("bad-op", st)
-  | ["spec-run", h, a, b] =>
-    match hexBytes? h, a.toNat?, b.toNat? with
-    | some code, some cv, some fuel =>
-      let r := Spec.Code.runCode code cv fuel
+  | "spec-run" :: h :: a :: b :: optCd =>
+    let cdw : Option Nat := match optCd with
+      | [] => some 0
+      | [x] => (hexBytes? (if x.length % 2 = 1 then "0" ++ x else x)).map (fun bs => bs.foldl (fun acc y => acc * 256 + y) 0)
+      | _ => none
+    match hexBytes? h, a.toNat?, b.toNat?, cdw with
+    | some code, some cv, some fuel, some cd =>
+      let r := Spec.Code.runCode code cv fuel cd
       let hk := match r.halt with
         | .stop => "stop" | .invalidJump => "invalidjump" | .underflow => "underflow"
         | .invalidOpcode => "invalidopcode" | .unsupported => "unsupported" | .outOfFuel => "fuel"
@@ -231,7 +235,7 @@ def handle (st : St) (line : String) : String × St :=
       let usedCv := tr.any fun pc => Spec.Code.byteAt code pc == 0x34
       let stk := if r.st.stack.isEmpty then "-" else ",".intercalate (r.st.stack.map toHex)
       (s!"halt={hk} pc={r.st.pc} stack={stk} msize={r.st.msize} cv={if usedCv then 1 else 0} trace={natList tr}", st)
-    | _, _, _ => ("bad-op", st)
+    | _, _, _, _ => ("bad-op", st)
   | ["spec-all", h, a] =>
     match hexBytes? h, a.toNat? with
     | some code, some k => (specAll code k, st)
